@@ -26,9 +26,15 @@ def pder(C, x):
     return (3 * C[3] * x + 2 * C[2]) * x + C[1]
 
 
+class NotFinite(Exception):
+    pass
+
+
 def decode(ev):
     xs = [f(v) for v in ev["x"]]
     ys = [f(v) for v in ev["y"]]
+    if not all(finite(v) for v in xs + ys):
+        raise NotFinite()
     ends = [f(v) for v in ev["ends"]]
     co = [[f(v) for v in c] for c in ev["co"]]
     return xs, ys, ends, co
@@ -91,7 +97,11 @@ def hermite(mon, ev, wit, X, Y, xs, ends, co, s, d, count=True):
 
 
 def check(mon, ev):
-    xs, ys, ends, co = decode(ev)
+    try:
+        xs, ys, ends, co = decode(ev)
+    except NotFinite:
+        mon.count("out_of_domain")      # the property is about finite knots
+        return
     mon.case(ev["h"])
     wit = lambda extra=None: dict({"x": ev["x"], "y": ev["y"], "x_v": xs, "y_v": ys, "coefficients": ev["co"][:8], "fam": [ev["xf"], ev["yf"]]}, **(extra or {}))
     X, Y = [fr(v) for v in xs], [fr(v) for v in ys]
